@@ -93,8 +93,20 @@ def model_line(api, meth, u, dx, lam, z, samples=(2, 2, 2, 2)):
     return '%s %d %d %s %s' % (op, n, m, ' '.join(str(f2b(p)) for p in ps), enc_field(u))
 
 
-def impl(api, meth, u, dx, lam, z, samples=(2, 2, 2, 2), aperture=1., zero_padding=(False, False, False), kernel=None):
+def impl(api, meth, u, dx, lam, z, samples=(2, 2, 2, 2), aperture=1., zero_padding=(False, False, False), kernel=None, dtype=None):
+    """dtype: None = complex128 (default); otherwise the NumPy dtype the field is handed over in (float64 / float32 / complex64 ...): a real-valued
+    field may be stored in a real dtype"""
     k = 2 * math.pi / lam
+    if dtype is not None:
+        arr = np.asarray(u)
+        arr = (arr.real if np.dtype(dtype).kind == 'f' else arr).astype(dtype)
+        if api == 'torch':
+            import odak.learn.wave as W
+            r = W.propagate_beam(torch.from_numpy(arr), k, z, dx, lam, propagation_type=T_METHODS.get(meth, meth), kernel=kernel,
+                                 zero_padding=list(zero_padding), aperture=aperture, samples=list(samples))
+            return r.detach().numpy().astype(np.complex128)
+        import odak.wave as W
+        return np.asarray(W.propagate_beam(arr, k, z, dx, lam, N_METHODS[meth]), dtype=np.complex128)
     if api == 'torch':
         import odak.learn.wave as W
         t = torch.from_numpy(np.asarray(u, dtype=np.complex128))
@@ -121,3 +133,37 @@ def maxdiff(a, b):
 
 def tol(api):
     return TOL_T if api == 'torch' else TOL_N
+
+
+def storage_independence(ctx, pid, methods=('as', 'bl', 'tf', 'ir')):
+    """a real-valued field is the same field whether it is stored as float32 / float64 or as a complex array with zero imaginary part (an amplitude
+    mask, a Gaussian beam at its waist): every method of both APIs must return the same propagated field for it.  With linearity this is
+    out(1 * u) = 1 * out(u) for the complex coefficient 1; it is stated by C03 and C04 for every input field.  Rejected dtypes are not judged."""
+    rng = ctx.rng
+    for (n, m) in ((6, 6), (5, 7), (8, 5)):
+        dx, lam, z, zc = rand_optics(rng, 'near')
+        ur = np.array([[rng.uniform(0.1, 1.5) for _ in range(m)] for _ in range(n)])
+        for api in ('torch', 'numpy'):
+            for meth in methods:
+                try:
+                    ref = impl(api, meth, ur.astype(np.complex128), dx, lam, z)
+                except Exception:
+                    continue
+                for dt in (np.float64, np.float32, np.complex64):
+                    ctx.case(('storage', pid, api, meth, n, m, np.dtype(dt).name), True)
+                    ctx.count('field_storage/%s/%s' % (api, np.dtype(dt).name))
+                    try:
+                        out = impl(api, meth, ur, dx, lam, z, dtype=dt)
+                    except Exception:
+                        ctx.count('field_storage/rejected/%s/%s' % (api, np.dtype(dt).name))
+                        continue
+                    scale = max(1.0, float(np.max(np.abs(ref))))
+                    tol_ = 2e-3 if (api == 'torch' or dt in (np.float32, np.complex64)) else 1e-9
+                    if out.shape != ref.shape or not maxdiff(out, ref) <= tol_ * scale:
+                        ctx.violation('%s %s: the real-valued %dx%d field stored as %s propagates to a different field than the same field stored as '
+                                      'complex128 (max difference %.3g, scale %.3g; imaginary part of the %s result: max %.3g)'
+                                      % (api, T_METHODS.get(meth, meth), n, m, np.dtype(dt).name, maxdiff(out, ref), scale, np.dtype(dt).name,
+                                         float(np.max(np.abs(out.imag))) if out.shape == ref.shape else float('nan')),
+                                      {'api': api, 'method': meth, 'n': n, 'm': m, 'dx': dx, 'lam': lam, 'z': z, 'dtype': np.dtype(dt).name,
+                                       'u': ur.reshape(-1).tolist()},
+                                      {'api': api, 'method': meth, 'what': 'field_storage', 'dtype': np.dtype(dt).name})
